@@ -99,6 +99,50 @@ def run_case(case, fmt):
     return runner.run_cli(argv, w), w, ans, eport
 
 
+# ---- every connection of one audit (handshake, host-key and group-exchange probes, connection-rate check) goes to the address the
+# options select, not only the first one
+def whole_audit_cases():
+    out = []
+    for rmode in ('v4v6', 'v6v4', 'v4', 'v6'):
+        for fam in FAMILY_OPTS:
+            for popt in (None, 2022):
+                out.append(('whole', rmode, fam, popt))
+    return out
+
+
+def check_whole_audit(case, st):
+    _t, rmode, fam, popt = case
+    host = 'host.example'
+    ans = resolver_answer('name', host, rmode)
+    eport = popt or 22
+    pref = family_pref(fam)
+    exp = expected_addresses(ans, pref)
+    servers = {}
+    for f, ip in ans:
+        servers[(ip, eport)] = P.Server(label='%s@%d' % (ip, eport), kex=['curve25519-sha256', 'diffie-hellman-group-exchange-sha256'], key=['ssh-ed25519', 'rsa-sha2-512'],
+                                        host_keys=P.standard_host_keys(['ssh-ed25519', 'rsa-sha2-512']), gex=P.GexPolicy([2048, 4096], P.STRICT))
+    w = vnet.World(servers=servers, resolver={host: ans})
+    argv = ['-n'] + FAMILY_OPTS[fam] + (['-p', str(popt)] if popt else []) + [host]
+    res = runner.run_cli(argv, w)
+    connects = [(ev[2], ev[3], ev[4]) for ev in w.log if ev[0] == 'connect']
+    st.execution(w, outcome=('whole', fam, rmode, res.status, len(connects)), root=case, nontrivial=case)
+    d = {'resolver': rmode, 'family': fam, 'p': popt, 'status': res.status, 'connections': len(connects)}
+    if res.hang or res.exc:
+        st.violation('whole-audit:crash-or-hang', dict(d, hang=res.hang, exc=res.exc))
+        return
+    if not exp:
+        if connects:
+            st.violation('whole-audit:dials-excluded-family:%s' % fam, dict(d, connects=sorted(set(connects))[:4]))
+        return
+    want_ip = exp[0][1]
+    stray = sorted(set(c for c in connects if c[0] != want_ip or c[1] != eport))
+    if stray:
+        phase = 'rate-check' if len([c for c in connects if c[0] != want_ip]) >= 20 else 'probes'
+        st.violation('whole-audit:later-connections-go-elsewhere:%s:%s:%s' % (fam, rmode, phase), dict(d, selected=want_ip, stray=stray[:4], stray_count=len([c for c in connects if c[0] != want_ip])))
+    if len(connects) < 20:
+        st.violation('whole-audit:rate-check-did-not-run', d)
+
+
 def label_text(kind, host, eport):
     if eport == 22:
         return host
@@ -296,6 +340,8 @@ def run(tier, seed):
     t0 = time.time()
     cs = cases(tier)
     st = par.pmap(work, cs)
+    for wc in whole_audit_cases():
+        check_whole_audit(wc, st)
     me = multi_entry_cases()
     par.pmap(work_multi_entry, me if tier != 'quick' else me[::3], stats=st, chunk=8)
     check_direct(st)
